@@ -61,6 +61,9 @@ func spawn(args []string, stderrPath string) (exitCode int, err error) {
 	defer f.Close()
 	cmd.Stderr = f
 	cmd.Stdout = f
+	if d := os.Getenv("VERIF_COVERDIR"); d != "" {
+		cmd.Env = append(os.Environ(), "GOCOVERDIR="+d)
+	}
 	if g := os.Getenv("GORACE"); g != "" && !strings.Contains(g, "log_path=") {
 		cmd.Env = append(os.Environ(), "GORACE="+g+" exitcode=0 log_path="+filepath.Join(os.Getenv("VERIF_SCRATCH"), "race"))
 	}
@@ -163,6 +166,12 @@ func Run(a RunArgs) int {
 	}
 	defer os.RemoveAll(tmp)
 	os.Setenv("VERIF_SCRATCH", tmp)
+	if os.Getenv("VERIF_COVER") != "" {
+		cd := filepath.Join(tmp, "cov")
+		_ = os.MkdirAll(cd, 0o755)
+		os.Setenv("VERIF_COVERDIR", cd)
+		os.Setenv("GOCOVERDIR", cd)
+	}
 
 	var results []*Result
 	var crashes []crashRec
